@@ -51,13 +51,79 @@ class C12(EngineProp):
             odd = [rng.choice([('text', b'hello'), ('text', b''), ('text', bytes(rng.getrandbits(8) for _ in range(12))), ('ping', b''), ('pong', b'x'), ('bin', b''), ('bin', b'\xee')])
                    for _ in range(rng.randint(1, 3))]
             out.append({'kind': 'ws', 'role': 'server', 'profile': 'ws', 'which': rng.choice(['aiohttp-server', 'aiohttp-client']), 'odd': [[k, d.hex()] for k, d in odd]})
+        # peer-supplied composite / routing metadata of every shape, parsed by the routing layer inside the receiver task
+        ROUTING = bytes([0x80 | 0x7e])        # well-known id of message/x.rsocket.routing.v0
+        def entry(content):
+            return ROUTING + len(content).to_bytes(3, 'big') + content
+        for _ in range(80 if tier == 'quick' else 1500):
+            hostile = []
+            for _ in range(rng.randint(1, 3)):
+                content = rng.choice([b'', b'\x00', b'\x09', b'\x05quick\x00', b'\x00\x05quick', b'\xff' + b'a' * 10, b'\x05quic', bytes(rng.getrandbits(8) for _ in range(rng.randint(1, 12)))])
+                blob = rng.choice([entry(content), entry(content)[:-1], entry(content) + b'\x80', bytes(rng.getrandbits(8) for _ in range(rng.randint(0, 9))), b'\x7e' + entry(content)[1:]])
+                hostile.append([rng.choice(['r', 'f', 's']), blob.hex()])
+            out.append({'kind': 'routed', 'role': 'server', 'profile': 'routed', 'hostile': hostile})
         return out
 
     def run_impl(self, case):
         if case.get('kind') == 'ws':
             from harness import detloop
             return detloop.run(self._ws, case)
+        if case.get('kind') == 'routed':
+            from harness import detloop
+            return detloop.run(self._routed, case)
         return super().run_impl(case)
+
+    async def _routed(self, loop, case):
+        # the routing layer parses peer-supplied composite metadata inside the receiver task: whatever the bytes, the request is answered
+        # or rejected on its own stream, and a well-formed request behind it is served
+        from harness import simnet
+        from rsocket.rsocket_server import RSocketServer
+        from rsocket.routing.request_router import RequestRouter
+        from rsocket.routing.routing_request_handler import RoutingRequestHandler
+        from rsocket.extensions.helpers import composite, route
+        from rsocket.extensions.mimetypes import WellKnownMimeTypes
+        from rsocket.helpers import create_future
+        from rsocket.payload import Payload
+        from rsocket import frame as F
+        router = RequestRouter()
+
+        @router.response('quick')
+        async def quick(payload):
+            return create_future(Payload(b'ok'))
+
+        @router.fire_and_forget('note')
+        async def note(payload):
+            return None
+        t = simnet.ScriptedTransport(loop)
+        server = RSocketServer(t, handler_factory=lambda: RoutingRequestHandler(router))
+        setup = F.SetupFrame()
+        setup.stream_id, setup.keep_alive_milliseconds, setup.max_lifetime_milliseconds = 0, 100000, 1000000
+        setup.metadata_encoding, setup.data_encoding = WellKnownMimeTypes.MESSAGE_RSOCKET_COMPOSITE_METADATA.value.name, b'application/octet-stream'
+        setup.flags_lease = setup.flags_resume = False
+        t.deliver(setup.serialize())
+        await loop.settle()
+        sid = 1
+        for ty, hx in case['hostile']:
+            fr = {'r': F.RequestResponseFrame, 'f': F.RequestFireAndForgetFrame, 's': F.RequestStreamFrame}[ty]()
+            fr.stream_id, fr.data, fr.metadata = sid, b'x', bytes.fromhex(hx)
+            if ty == 's':
+                fr.initial_request_n = 1
+            t.deliver(fr.serialize())
+            sid += 2
+        await loop.settle()
+        probe = F.RequestResponseFrame()
+        probe.stream_id, probe.data, probe.metadata = sid, b'p', bytes(composite(route('quick')))
+        t.deliver(probe.serialize())
+        await loop.settle()
+        answered = sorted({e[2].stream_id for e in t.sent if isinstance(e[2], F.PayloadFrame)})
+        errors_on = sorted({e[2].stream_id for e in t.sent if isinstance(e[2], F.ErrorFrame)})
+        res = {'probe_sid': sid, 'answered': answered, 'errors_on': errors_on, 'receiver_alive': server._receiver_task is not None and not server._receiver_task.done(),
+               'sender_alive': server._sender_task is not None and not server._sender_task.done()}
+        try:
+            await server.close()
+        except Exception:
+            pass
+        return res
 
     async def _ws(self, loop, case):
         # a websocket peer is not bound to binary messages: text, ping / pong and close messages are peer input too. A real server on the
@@ -130,13 +196,13 @@ class C12(EngineProp):
         return res
 
     def model_lines(self, case, obs):
-        return [] if case.get('kind') == 'ws' else super().model_lines(case, obs)
+        return [] if case.get('kind') in ('ws', 'routed') else super().model_lines(case, obs)
 
     def compare(self, case, obs, answers):
-        return None if case.get('kind') == 'ws' else super().compare(case, obs, answers)
+        return None if case.get('kind') in ('ws', 'routed') else super().compare(case, obs, answers)
 
     def nontrivial(self, case, obs):
-        if case.get('kind') == 'ws':
+        if case.get('kind') in ('ws', 'routed'):
             import json
             return json.dumps(case, sort_keys=True)
         return super().nontrivial(case, obs)
@@ -145,9 +211,17 @@ class C12(EngineProp):
         if case.get('kind') == 'ws':
             yield 'kind=websocket-non-binary-messages'
             return
+        if case.get('kind') == 'routed':
+            yield 'kind=hostile-routing-metadata'
+            return
         yield from super().stats(case, obs)
 
     def shrink_candidates(self, case):
+        if case.get('kind') == 'routed':
+            for i in range(len(case['hostile'])):
+                if len(case['hostile']) > 1:
+                    yield dict(case, hostile=case['hostile'][:i] + case['hostile'][i + 1:])
+            return
         if case.get('kind') == 'ws':
             for i in range(len(case['odd'])):
                 if len(case['odd']) > 1:
@@ -156,7 +230,7 @@ class C12(EngineProp):
         yield from super().shrink_candidates(case)
 
     def explicit(self, case, obs):
-        if case.get('kind') == 'ws':
+        if case.get('kind') in ('ws', 'routed'):
             return case
         return super().explicit(case, obs)
 
@@ -212,6 +286,11 @@ class C12(EngineProp):
 
     def oracle(self, case, obs):
         fails = []
+        if case.get('kind') == 'routed':
+            if obs['probe_sid'] not in obs['answered']:
+                fails.append({'signature': 'request-not-served-after-hostile-routing-metadata', 'what': 'routed requests with metadata %s, then a well-formed routed request on stream %d: it was not answered (answered %s, errors on %s, receiver alive %s, sender alive %s)' % (
+                    case['hostile'], obs['probe_sid'], obs['answered'], obs['errors_on'], obs['receiver_alive'], obs['sender_alive'])})
+            return fails
         if case.get('kind') == 'ws':
             want = {'1': '6563686f3a0b', '3': '6563686f3a0d'}
             got = {str(k): v for k, v in obs['answered'].items()}
